@@ -18,7 +18,8 @@ def mon_norepeat(w):
         got = msgs(c.app)
         if got != peer.app.sent[:len(got)]:
             w.flag("messages", "c%d" % c.ci, "client %d received %r, peer sent %r" % (c.ci, got, peer.app.sent))
-        if any(k == "closed" or k.startswith("err:") for k, _ in obs):
+        closing = c.ghost["cause"] is not None and c.ghost["cause"][0] == "close"
+        if any(k == "closed" or k.startswith("err:") for k, _ in obs) and not closing:
             w.flag("session-died", "c%d" % c.ci, "client %d session ended without close(): %r errors=%r" % (c.ci, obs, w.errors))
     # per connection, the first command the server processes must be bind (ghost kept by server_hook)
 
@@ -39,6 +40,18 @@ def fin_complete(w):
     keys = [[v for k, v in c.app.obs if k == "key"] for c in w.clients]
     if keys[0] and keys[1] and keys[0] != keys[1]:
         out.append(dict(oracle="eventually-complete", sig="keys-differ", msg="keys differ"))
+    return out
+
+
+def fin_closing(w):
+    """scenarios in which client 0 also calls close(): the reconnects must not lose its closed notification either"""
+    out = []
+    c = w.clients[0]
+    n = sum(1 for k, _ in c.app.obs if k == "closed")
+    if c.ghost["cause"] is not None and c.ghost["cause"][0] == "close" and n != 1:
+        out.append(dict(oracle="eventually-complete", sig="c0:closed-lost",
+                        msg="connected and quiescent: client 0 called close() but saw closed %d times; obs=%r server_errors=%r" % (
+                            n, c.app.obs, w.server_errors)))
     return out
 
 
@@ -100,6 +113,11 @@ def scenarios(tier):
     ch["hsfail"] = 1
     ch["explored"] = tuple(ch["explored"]) + ("hsfail",)
     S.append(mk("set-set-fine0-drop1-hsfail-dev3", ch, dev_bound=3 if q else None, max_depth=120, max_states=4000000))
+    # the application closes while the connection comes and goes: the close handshake is resumed on the next connection
+    cc = cfg("set", "set", 1, 1, (0,), (2, 0))
+    cc["clients"][0]["threads"].append([("close",)])
+    cc["final_monitors"] = [fin_closing]
+    S.append(mk("set-set-close0-drops2-dev3", cc, dev_bound=3 if q else 4, max_depth=200))
     S.append(mk("set-set-dev2-drops2", cfg("set", "set", 1, 1, (0, 1), (2, 2), mode="deferred"), dev_bound=2, max_depth=200))
     S.append(mk("alloc-input-dev2-drops2", cfg("alloc", "input", 1, 1, (0, 1), (2, 2)), dev_bound=2, max_depth=200))
     if not q:
